@@ -511,21 +511,24 @@ def case_seeds(c):
         from blimpy import Waterfall
         import contextlib as _cl, io as _io
         fnw = os.path.join(engine.workdir(), 'c12_wfshare_%d.fil' % s)
-        with _cl.redirect_stdout(_io.StringIO()):
-            f1.save_fil(fnw)
-            for load in (lambda: Waterfall(fnw),):
-                w = load()
+        # (both orientations of the file: a descending one is flipped on loading, an ascending one is used as it is)
+        for asc_ in (False, True):
+            with _cl.redirect_stdout(_io.StringIO()):
+                src_fr = stg.Frame(fchans=f1.fchans, tchans=f1.tchans, df=f1.df, dt=f1.dt, fch1=(f1.fmin if asc_ else f1.fmax), ascending=asc_,
+                                   data=np.array(f1.data, copy=True), t_start=86400.0 * 3)
+                src_fr.save_fil(fnw)
+                w = Waterfall(fnw)
                 w0 = np.array(w.data, copy=True)
                 fa = stg.Frame(waterfall=w, seed=s)
                 fb = stg.Frame(waterfall=w, seed=s + 1)
                 b0 = np.array(fb.data, copy=True)
                 fa.add_noise(1.0e3)
                 fa.add_signal(fa.get_frequency(2), 5.0, stg.gaussian_f_profile(4.0))
-        if not np.array_equal(fb.data, b0):
-            viol.append({'site': 'Frame', 'failure': 'not_isolated', 'detail': 'adding noise / a signal to one frame built from a Waterfall object changed a second frame built from the same object'})
-        if not np.array_equal(np.asarray(w.data), w0):
-            viol.append({'site': 'Frame', 'failure': 'caller_array_modified', 'detail': 'adding noise / a signal to a frame built from a Waterfall object wrote into that object\'s data'})
-        os.remove(fnw)
+            if not np.array_equal(fb.data, b0):
+                viol.append({'site': 'Frame', 'failure': 'not_isolated', 'detail': 'adding noise / a signal to one frame built from a Waterfall object (ascending=%s) changed a second frame built from the same object' % asc_})
+            if not np.array_equal(np.asarray(w.data), w0):
+                viol.append({'site': 'Frame', 'failure': 'caller_array_modified', 'detail': 'adding noise / a signal to a frame built from a Waterfall object (ascending=%s) wrote into that object\'s data' % asc_})
+            os.remove(fnw)
     except Exception as e:
         viol.append({'site': 'Frame', 'failure': 'raised', 'detail': 'frames from one Waterfall object: %s: %s' % (type(e).__name__, e)})
     # two streams with different seeds and TWO noise sources each: no source of one may repeat a source of the other
